@@ -93,7 +93,47 @@ func hxs(s string) string { return hx([]byte(s)) }
 
 var nameGrammar = []string{"../root-private/canary", "../rootx", "../root-private/new", "/../root-private/canary", "..", ".", "", "/", "a", "b", "sub", "a/..", "a/../..", "../x", "../../x", "/../x", "/etc", "../canary", "..//..", "a/./b", "x y", "../outerdir", "sub/../../canary", "...", "..a", "a..", "/"}
 
+// scripted choices for the first sessions: every escape route is tried with every outside target,
+// whatever the seed (the random sessions follow)
+type confPlan struct {
+	aname string   // "" with attach=false: plain attach
+	ops   []int    // 0 walk, 2 create, 3 rename
+	names []string // consumed by the picks, in order
+}
+
+var forcedNames []string
+var forcedOps []int
+
+func confinementPlans() []confPlan {
+	var ps []confPlan
+	targets := []string{"../rootx", "../root-private/canary", "../root-private/new", "/../rootx", "../canary", "../../x",
+		"sub/../../canary", "..", "../outerdir", "../root-private", "a/../../root-private/canary", "/../root-private/canary"}
+	for _, t := range targets {
+		ps = append(ps, confPlan{aname: t})                                                       // attach name
+		ps = append(ps, confPlan{ops: []int{2}, names: []string{t}})                               // create in the root
+		ps = append(ps, confPlan{ops: []int{3}, names: []string{t}})                               // rename of the root fid (refused) ...
+		ps = append(ps, confPlan{ops: []int{9, 3}, names: []string{t}})                            // ... and of a file below it (op 9: walk to "x")
+		ps = append(ps, confPlan{ops: []int{9, 3}, names: []string{"/" + strings.TrimLeft(t, "/")}}) // root-relative rename
+	}
+	// '..' chains from below the root, in one Twalk (op 8: a walk with exactly these elements)
+	for _, names := range [][]string{{"sub", "..", ".."}, {"a", "b", "..", "..", ".."}, {"a", "..", "..", "canary"}, {"..", "canary"},
+		{"sub", "..", "..", "root-private", "canary"}, {"a", "b", "..", "..", "..", "outerdir", "c2"}, {".", "..", "x"}} {
+		ps = append(ps, confPlan{ops: []int{8}, names: names})
+	}
+	// the same from a fid below the root: first walk down, then '..' past the root in a second Twalk
+	for _, names := range [][]string{{"sub", "|", "..", ".."}, {"sub", "|", "..", "..", "canary"}, {"a", "b", "|", "..", "..", "..", "root-private", "canary"},
+		{"a", "|", "..", "..", "x"}, {"sub", "|", "..", ".", "..", "outerdir", "c2"}} {
+		ps = append(ps, confPlan{ops: []int{8, 8}, names: names})
+	}
+	return ps
+}
+
 func pickName() string {
+	if len(forcedNames) > 0 {
+		n := forcedNames[0]
+		forcedNames = forcedNames[1:]
+		return n
+	}
 	if rng.Intn(3) == 0 {
 		n := rng.Intn(4)
 		parts := make([]string, n+1)
@@ -166,7 +206,15 @@ func inoOf(p string) uint64 {
 func confinementSessions(n int, base string) {
 	outer := filepath.Join(base, "outer")
 	root := filepath.Join(outer, "root")
-	for s := 0; s < n; s++ {
+	plans := confinementPlans()
+	for s := 0; s < n+len(plans); s++ {
+		forcedNames, forcedOps = nil, nil
+		var plan *confPlan
+		if s < len(plans) {
+			plan = &plans[s]
+			forcedNames = append([]string{}, plan.names...)
+			forcedOps = append([]int{}, plan.ops...)
+		}
 		_ = os.RemoveAll(outer)
 		_ = os.MkdirAll(filepath.Join(root, "a", "b"), 0o755)
 		_ = os.MkdirAll(filepath.Join(root, "sub"), 0o755)
@@ -201,7 +249,9 @@ func confinementSessions(n int, base string) {
 		fidno := uint32(10)
 		// attach with a grammar name
 		aname := ""
-		if rng.Intn(2) == 0 {
+		if plan != nil {
+			aname = plan.aname
+		} else if rng.Intn(2) == 0 {
 			aname = pickName()
 		}
 		rc, err := t.rpc(&gmsg{kind: go9p.Tattach, a: 1, b: uint64(go9p.NOFID), s1: []byte("u"), s2: []byte(aname), c: uint64(os.Getuid())})
@@ -216,16 +266,40 @@ func confinementSessions(n int, base string) {
 		fmt.Fprintf(&sb, " A %s => %s", hxs(aname), hxs(filepath.Clean(t.spy.pathOf(1))))
 		nops++
 		cur := uint32(1)
-		for i := 0; i < 6; i++ {
-			switch rng.Intn(4) {
-			case 0, 1: // walk
+		nsteps := 6
+		if plan != nil {
+			nsteps = len(plan.ops)
+		}
+		for i := 0; i < nsteps; i++ {
+			op := rng.Intn(4)
+			if plan != nil {
+				op = forcedOps[i]
+			}
+			switch op {
+			case 0, 1, 8, 9: // walk (9: to the file "x"; 8: exactly the scripted elements)
 				nn := rng.Intn(4)
+				if op == 9 {
+					nn = 1
+				}
+				if op == 8 {
+					// the scripted elements up to the marker "|"
+					nn = 0
+					for nn < len(forcedNames) && forcedNames[nn] != "|" {
+						nn++
+					}
+				}
 				names := make([][]byte, nn)
 				for j := range names {
 					names[j] = []byte(pickName())
-					if rng.Intn(2) == 0 {
+					if op != 8 && rng.Intn(2) == 0 {
 						names[j] = []byte([]string{"..", "a", "b", "sub", "f", ".", "x"}[rng.Intn(7)])
 					}
+					if op == 9 {
+						names[j] = []byte("x")
+					}
+				}
+				if op == 8 && len(forcedNames) > 0 && forcedNames[0] == "|" {
+					forcedNames = forcedNames[1:]
 				}
 				fidno++
 				from := filepath.Clean(t.spy.pathOf(cur))
